@@ -1722,14 +1722,26 @@ class Engine(ExprMixin, CallMixin):
             for v, c0 in zip(vars_, cs):
                 s2.ghost[v] = c0
             goal = None
+            pat_terms = []
             for p_ in parts[1:]:
                 if p_.startswith("assert "):
                     goal = to_z3(self.spec_eval(p_[7:], s2))
                     self.emit(f"ghost.forall[{g.get('label', g['at'][:24])}]", s2, goal, node, kind="ghost")
                     s2.assume(goal)
+                elif p_.startswith("pats "):
+                    # "pats t1; t2": instantiation hint (one multi-pattern) for the quantified fact that is exported
+                    pat_terms = [to_z3(self.spec_value(t_, s2)) for t_ in p_[5:].split(";")]
                 else:
                     self.ghost_cmd(p_, s2, node, g)
             bs = [z3.Int(uid(v + "b")) for v in vars_]
+            if pat_terms and not any(_has_ite(t_) for t_ in pat_terms):
+                pat_terms = [z3.substitute(t_, *zip(cs, bs)) for t_ in pat_terms]
+                try:
+                    st.assume(z3.ForAll(bs, z3.substitute(goal, *zip(cs, bs)),
+                                        patterns=[z3.MultiPattern(*pat_terms) if len(pat_terms) > 1 else pat_terms[0]]))
+                    return
+                except z3.Z3Exception:
+                    pass  # not a legal pattern: patterns are only hints
             st.assume(z3.ForAll(bs, z3.substitute(goal, *zip(cs, bs))))
         else:
             raise ContractError(f"unknown ghost command {cmd!r}")
